@@ -1,191 +1,315 @@
 /-
-Helper lemmas for the home-thread executor model (Compio/Model/Executor.lean): what every function
-regenerated from task/state.rs does to the explicit fields of the word, the per-task lifecycle invariant
-`TInv` and its preservation by every per-task step, the queue well-formedness and the whole-state
-invariant `Inv` with its preservation by every operation.
+Whole-state lemmas for the home-thread executor model: queue well-formedness, the invariant `Inv`
+(every task satisfies `TInv`, cancelled queued tasks are hot, a dropped executor has empty queues) and
+its preservation by every operation of Compio/Model/Executor.lean.
 -/
-import Compio.Model.Executor
+import Compio.Lemmas.ExecutorTask
 
 namespace Compio.Executor
 open Compio.TaskWord Compio.Gen
 set_option linter.unusedSimpArgs false
 set_option linter.unusedVariables false
 
-/-! ## The generated word operations on explicit fields
-(these `rfl` lemmas break when task/state.rs changes a mask — intended) -/
+/-! ## Queue well-formedness and the invariant -/
 
-@[simp] theorem g_new (n : Nat) : TaskState.new n =
-    ⟨false, false, true, false, false, false, true, n⟩ := rfl
-@[simp] theorem g_unschedule (w : Word) : TaskState.unschedule w = { w with scheduled := false } := rfl
-@[simp] theorem g_setDropped (w : Word) :
-    TaskState.setDropped w = { w with hasWaker := false, notCancelled := false } := rfl
-@[simp] theorem g_setCancelled (w : Word) : TaskState.setCancelled w = { w with notCancelled := false } := rfl
-@[simp] theorem g_finishRunning (w : Word) :
-    TaskState.finishRunning w = { w with completed := true, hasResult := true } := rfl
-@[simp] theorem g_setHasResultFalse (w : Word) : TaskState.setHasResultFalse w = { w with hasResult := false } := rfl
-@[simp] theorem g_setHasWakerTrue (w : Word) : TaskState.setHasWakerTrue w = { w with hasWaker := true } := rfl
-@[simp] theorem g_inc (w : Word) : TaskState.inc w = { w with count := w.count + 1 } := rfl
-@[simp] theorem g_dec (w : Word) : TaskState.dec w = { w with count := w.count - 1 } := rfl
-@[simp] theorem g_load (w : Word) : TaskState.load w = w := rfl
-@[simp] theorem g_isCancelled (w : Word) : TaskState.isCancelled w = !w.notCancelled := rfl
-@[simp] theorem g_isCompleted (w : Word) : TaskState.isCompleted w = w.completed := rfl
-@[simp] theorem g_isSettingWaker (w : Word) : TaskState.isSettingWaker w = !w.notSettingWaker := rfl
-@[simp] theorem g_hasWaker (w : Word) : TaskState.hasWaker w = w.hasWaker := rfl
-@[simp] theorem g_hasResult (w : Word) : TaskState.hasResult w = w.hasResult := rfl
-@[simp] theorem g_count (w : Word) : TaskState.count w = w.count := rfl
+/-- (Q) hot and cold are duplicate-free, disjoint and contain only valid ids -/
+structure QWf (e : Exec) : Prop where
+  hnd : e.hot.Nodup
+  cnd : e.cold.Nodup
+  disj : ∀ x, x ∈ e.hot → x ∈ e.cold → False
+  hval : ∀ x, x ∈ e.hot → x < e.tasks.length
+  cval : ∀ x, x ∈ e.cold → x < e.tasks.length
 
-/-! ## Per-task invariant -/
+structure Inv (e : Exec) : Prop where
+  q : QWf e
+  t : ∀ id t, e.get? id = some t → TInv (inMap e id) t
+  /-- a cancelled task that is still in the queue is hot (it was scheduled by `Task::cancel`) -/
+  c : ∀ id t, e.get? id = some t → t.word.notCancelled = false → id ∈ e.cold → False
+  /-- after `Executor::drop` the queues are empty -/
+  dead : e.alive = false → e.hot = [] ∧ e.cold = []
 
-/-- number of `Task` references that exist: the executor's (while the task is in the queue), the
-join handle's, and one per live waker clone -/
-def holders (inQ : Bool) (t : TaskSt) : Nat :=
-  (if inQ then 1 else 0) + (if t.handle then 1 else 0) + t.wakers
+theorem inMap_iff (e : Exec) (id : Nat) : inMap e id = true ↔ id ∈ e.hot ∨ id ∈ e.cold := by
+  simp [inMap]
 
-def isRes : Storage → Bool
-  | .resultOk | .resultPanic => true
-  | _ => false
+theorem inMap_false_iff (e : Exec) (id : Nat) : inMap e id = false ↔ ¬ (id ∈ e.hot ∨ id ∈ e.cold) := by
+  rw [← inMap_iff]; simp
 
-/-- lifecycle invariant of one task; `inQ` = the task is still in the executor's map (hot or cold) -/
-structure TInv (inQ : Bool) (t : TaskSt) : Prop where
-  /-- (R) reference count = number of holders, while allocated -/
-  rc : t.deallocs = 0 → t.word.count = holders inQ t
-  /-- (D) freed exactly when there is no holder left, at most once -/
-  dl : t.deallocs = (if holders inQ t = 0 then 1 else 0)
-  /-- (D) nothing touches the allocation after it was freed -/
-  uaf : t.uaf = 0
-  /-- (F) in the queue: the future is there, not dropped, not completed, `shared` valid -/
-  inq_st : inQ = true → t.storage = .future
-  inq_fd : inQ = true → t.futDrops = 0
-  inq_c : inQ = true → t.word.completed = false
-  inq_sh : inQ = true → t.shared = true
-  /-- (F) out of the queue: the future was dropped exactly once, `Task::drop` ran -/
-  outq_fd : inQ = false → t.futDrops = 1
-  outq_sh : inQ = false → t.shared = false
-  outq_nc : inQ = false → t.word.notCancelled = false
-  outq_slot : inQ = false → t.slot = none
-  outq_st : inQ = false → t.storage ≠ .future
-  outq_empty : inQ = false → t.word.hasResult = false ∨ t.deallocs = 1 → t.storage = .empty
-  /-- (P) never polled after completion -/
-  bp : t.badPolls = 0
-  /-- the home thread never leaves the SETTING_WAKER section open -/
-  nsw : t.word.notSettingWaker = true
-  /-- (S) HAS_RESULT ⇔ the storage holds a result, while allocated -/
-  res : t.deallocs = 0 → t.word.hasResult = isRes t.storage
-  resc : t.word.hasResult = true → t.word.completed = true
-  /-- (S) the result is taken or dropped exactly once after it left the storage -/
-  cnt : t.resTaken + t.resDrops = (if t.word.completed && (!t.word.hasResult || t.deallocs == 1) then 1 else 0)
-  /-- (W) HAS_WAKER ⇔ the slot is occupied -/
-  wk : t.word.hasWaker = t.slot.isSome
-  /-- (W) every join waker written is dropped once, except the one still in the slot -/
-  sl : t.slotSets = t.slotDrops + (if t.slot.isSome then 1 else 0)
-  /-- a live handle on a completed task finds the result (`unreachable!` in `Local::poll`) -/
-  hd : t.handle = true → t.word.completed = true → t.word.hasResult = true
+theorem inMap_eq_of_iff (e e' : Exec) (id id' : Nat)
+    (h : (id ∈ e.hot ∨ id ∈ e.cold) ↔ (id' ∈ e'.hot ∨ id' ∈ e'.cold)) : inMap e id = inMap e' id' := by
+  cases h1 : inMap e id <;> cases h2 : inMap e' id' <;> simp_all [inMap_iff, inMap_false_iff]
 
-/-! ## `Task::run` branch by branch -/
+theorem get?_lt {e : Exec} {id : Nat} {t : TaskSt} (h : e.get? id = some t) : id < e.tasks.length := by
+  unfold Exec.get? at h
+  exact (List.getElem?_eq_some_iff.mp h).1
 
-/-- the task after a poll that returned Pending -/
-def polledTask (t : TaskSt) : TaskSt :=
-  { t with word := TaskState.unschedule t.word, polls := t.polls + 1, script := t.script.drop 1 }
+theorem Inv.get_of_mem {e : Exec} (h : Inv e) {id : Nat} (hm : id ∈ e.hot ∨ id ∈ e.cold) :
+    ∃ t, e.get? id = some t ∧ TInv true t := by
+  have hl : id < e.tasks.length := hm.elim (h.q.hval id) (h.q.cval id)
+  refine ⟨e.tasks[id], ?_, ?_⟩
+  · simp [Exec.get?, hl]
+  · have := h.t id e.tasks[id] (by simp [Exec.get?, hl])
+    rwa [(inMap_iff e id).mpr hm] at this
 
-/-- the task after a poll that cloned the task waker and returned Pending -/
-def clonedTask (t : TaskSt) : TaskSt :=
-  { polledTask t with word := TaskState.inc (TaskState.unschedule t.word), wakers := t.wakers + 1 }
+/-- relation between the queues before and after a step that concerns task `id` only -/
+structure QStep (hot cold : List Nat) (id : Nat) (hot' cold' : List Nat) : Prop where
+  hnd : hot'.Nodup
+  cnd : cold'.Nodup
+  disj : ∀ x, x ∈ hot' → x ∈ cold' → False
+  sub : ∀ x, x ∈ hot' ∨ x ∈ cold' → x ∈ hot ∨ x ∈ cold
+  keep : ∀ x, x ≠ id → (x ∈ hot ∨ x ∈ cold) → x ∈ hot' ∨ x ∈ cold'
+  coldsub : ∀ x, x ≠ id → x ∈ cold' → x ∈ cold
 
-/-- the task after its future returned Ready / panicked: result published, `Task::drop`, reference released -/
-def finishedTask (t : TaskSt) (o : Outcome) : TaskSt :=
-  dropRef (taskDropByExecutor
-    { t with word := TaskState.finishRunning (TaskState.unschedule t.word), polls := t.polls + 1,
-             script := t.script.drop 1, futDrops := t.futDrops + 1,
-             storage := if o = .panic then .resultPanic else .resultOk })
+theorem QStep.refl {e : Exec} (q : QWf e) (id : Nat) : QStep e.hot e.cold id e.hot e.cold :=
+  ⟨q.hnd, q.cnd, q.disj, fun _ h => h, fun _ _ h => h, fun _ _ h => h⟩
 
-/-- the task after `Task::run` found it cancelled: `Task::drop`, reference released -/
-def droppedTask (t : TaskSt) : TaskSt :=
-  dropRef (taskDropByExecutor { t with word := TaskState.unschedule t.word })
+theorem QStep.makeHot {e : Exec} (q : QWf e) {id : Nat} (hc : id ∈ e.cold) :
+    QStep e.hot e.cold id (e.hot ++ [id]) (e.cold.erase id) := by
+  have hnh : id ∉ e.hot := fun hh => q.disj id hh hc
+  refine ⟨?_, q.cnd.erase id, ?_, ?_, ?_, ?_⟩
+  · rw [List.nodup_append]
+    refine ⟨q.hnd, by simp, ?_⟩
+    intro a ha b hb
+    simp at hb; subst hb
+    intro hab; subst hab; exact hnh ha
+  · intro x hx hx'
+    rw [q.cnd.mem_erase_iff] at hx'
+    simp at hx
+    rcases hx with hx | hx
+    · exact q.disj x hx hx'.2
+    · exact hx'.1 hx
+  · intro x hx
+    simp at hx
+    rcases hx with (hx | hx) | hx
+    · exact Or.inl hx
+    · subst hx; exact Or.inr hc
+    · exact Or.inr (List.mem_of_mem_erase hx)
+  · intro x hne hx
+    rcases hx with hx | hx
+    · exact Or.inl (by simp [hx])
+    · exact Or.inr ((List.mem_erase_of_ne hne).mpr hx)
+  · intro x hne hx
+    exact List.mem_of_mem_erase hx
 
-theorem runTask_cancelled (t : TaskSt) (hc : t.word.notCancelled = false) :
-    runTask t = (droppedTask t, .dropped, none) := by
-  simp [runTask, hc, droppedTask]
+theorem QStep.remove {e : Exec} (q : QWf e) (id : Nat) :
+    QStep e.hot e.cold id (e.hot.erase id) (e.cold.erase id) := by
+  refine ⟨q.hnd.erase id, q.cnd.erase id, ?_, ?_, ?_, ?_⟩
+  · intro x hx hx'
+    exact q.disj x (List.mem_of_mem_erase hx) (List.mem_of_mem_erase hx')
+  · intro x hx
+    exact hx.elim (fun h => Or.inl (List.mem_of_mem_erase h)) (fun h => Or.inr (List.mem_of_mem_erase h))
+  · intro x hne hx
+    exact hx.elim (fun h => Or.inl ((List.mem_erase_of_ne hne).mpr h)) (fun h => Or.inr ((List.mem_erase_of_ne hne).mpr h))
+  · intro x hne hx
+    exact List.mem_of_mem_erase hx
 
-theorem runTask_pending (t : TaskSt) (hc : t.word.notCancelled = true) (hb : t.word.completed = false)
-    (hs : t.script = [] ∨ ∃ r, t.script = .pending :: r) :
-    runTask t = (polledTask t, .pending, none) := by
-  rcases hs with hs | ⟨r, hs⟩ <;> simp [runTask, hc, hb, hs, polledTask]
+/-- the three possible queue effects of one loop body of `tick` on the head `id` of the hot list -/
+theorem QStep.tick {e : Exec} (q : QWf e) {id : Nat} {rest : List Nat} (hh : e.hot = id :: rest)
+    (toHot toCold : Bool) (hx : ¬ (toHot = true ∧ toCold = true)) :
+    QStep e.hot e.cold id (rest ++ (if toHot then [id] else [])) (e.cold ++ (if toCold then [id] else [])) := by
+  have hnd := q.hnd
+  rw [hh, List.nodup_cons] at hnd
+  have hnc : id ∉ e.cold := fun hc => q.disj id (by simp [hh]) hc
+  have hdisj : ∀ x, x ∈ rest → x ∈ e.cold → False := fun x hx => q.disj x (by simp [hh, hx])
+  refine ⟨?_, ?_, ?_, ?_, ?_, ?_⟩
+  · cases toHot <;> simp
+    · exact hnd.2
+    · rw [List.nodup_append]
+      refine ⟨hnd.2, by simp, ?_⟩
+      intro a ha b hb
+      simp at hb; subst hb
+      intro hab; subst hab; exact hnd.1 ha
+  · cases toCold <;> simp
+    · exact q.cnd
+    · rw [List.nodup_append]
+      refine ⟨q.cnd, by simp, ?_⟩
+      intro a ha b hb
+      simp at hb; subst hb
+      intro hab; subst hab; exact hnc ha
+  · intro x h1 h2
+    cases toHot <;> cases toCold <;> simp at h1 h2 hx
+    · exact hdisj x h1 h2
+    · rcases h2 with h2 | h2
+      · exact hdisj x h1 h2
+      · subst h2; exact hnd.1 h1
+    · rcases h1 with h1 | h1
+      · exact hdisj x h1 h2
+      · subst h1; exact hnc h2
+  · intro x h1
+    rw [hh]
+    simp only [List.mem_append, List.mem_cons] at h1 ⊢
+    rcases h1 with (h1 | h1) | (h1 | h1)
+    · exact Or.inl (Or.inr h1)
+    · cases toHot <;> simp at h1
+      exact Or.inl (Or.inl h1)
+    · exact Or.inr h1
+    · cases toCold <;> simp at h1
+      exact Or.inl (Or.inl h1)
+  · intro x hne h1
+    rw [hh] at h1
+    simp at h1
+    rcases h1 with (h1 | h1) | h1
+    · exact absurd h1 hne
+    · exact Or.inl (by simp [h1])
+    · exact Or.inr (by simp [h1])
+  · intro x hne h1
+    cases toCold <;> simp at h1
+    · exact h1
+    · exact h1.resolve_right hne
 
-theorem runTask_wakeSelf (t : TaskSt) (hc : t.word.notCancelled = true) (hb : t.word.completed = false)
-    (r : List Outcome) (hs : t.script = .wakeSelf :: r) :
-    runTask t = (polledTask t, .wokeSelf, none) := by
-  simp [runTask, hc, hb, hs, polledTask]
+theorem Inv.update {e : Exec} (h : Inv e) {id : Nat} {t t' : TaskSt} {hot' cold' : List Nat}
+    (hg : e.get? id = some t) (qs : QStep e.hot e.cold id hot' cold') (b : Bool)
+    (hb : (id ∈ hot' ∨ id ∈ cold') ↔ b = true) (ht : TInv b t')
+    (hc : t'.word.notCancelled = false → id ∈ cold' → False)
+    (e' : Exec) (e1 : e'.tasks = e.tasks.set id t') (e2 : e'.hot = hot') (e3 : e'.cold = cold')
+    (e4 : e'.alive = e.alive) : Inv e' := by
+  have hl := get?_lt hg
+  have hlen : e'.tasks.length = e.tasks.length := by simp [e1]
+  refine ⟨⟨?_, ?_, ?_, ?_, ?_⟩, ?_, ?_, ?_⟩
+  · rw [e2]; exact qs.hnd
+  · rw [e3]; exact qs.cnd
+  · rw [e2, e3]; exact qs.disj
+  · intro x hx
+    rw [e2] at hx; rw [hlen]
+    exact (qs.sub x (Or.inl hx)).elim (h.q.hval x) (h.q.cval x)
+  · intro x hx
+    rw [e3] at hx; rw [hlen]
+    exact (qs.sub x (Or.inr hx)).elim (h.q.hval x) (h.q.cval x)
+  · intro x tx hx
+    unfold Exec.get? at hx
+    rw [e1] at hx
+    by_cases hxi : x = id
+    · subst hxi
+      rw [List.getElem?_set_self hl] at hx
+      cases hx
+      have : inMap e' x = b := by
+        cases b
+        · rw [inMap_false_iff, e2, e3]; simpa using hb
+        · rw [inMap_iff, e2, e3]; simpa using hb
+      rw [this]; exact ht
+    · rw [List.getElem?_set_ne (Ne.symm hxi)] at hx
+      have hm : inMap e' x = inMap e x := by
+        apply inMap_eq_of_iff
+        rw [e2, e3]
+        exact ⟨qs.sub x, qs.keep x hxi⟩
+      rw [hm]
+      exact h.t x tx hx
+  · intro x tx hx hnc hcold
+    unfold Exec.get? at hx
+    rw [e1] at hx
+    rw [e3] at hcold
+    by_cases hxi : x = id
+    · subst hxi
+      rw [List.getElem?_set_self hl] at hx
+      cases hx
+      exact hc hnc hcold
+    · rw [List.getElem?_set_ne (Ne.symm hxi)] at hx
+      exact h.c x tx hx hnc (qs.coldsub x hxi hcold)
+  · intro ha
+    rw [e4] at ha
+    obtain ⟨d1, d2⟩ := h.dead ha
+    rw [e2, e3]
+    constructor
+    · apply List.eq_nil_iff_forall_not_mem.mpr
+      intro x hx
+      have := qs.sub x (Or.inl hx)
+      simp [d1, d2] at this
+    · apply List.eq_nil_iff_forall_not_mem.mpr
+      intro x hx
+      have := qs.sub x (Or.inr hx)
+      simp [d1, d2] at this
 
-theorem runTask_clone (t : TaskSt) (hc : t.word.notCancelled = true) (hb : t.word.completed = false)
-    (r : List Outcome) (hs : t.script = .cloneWaker :: r) :
-    runTask t = (clonedTask t, .pending, none) := by
-  simp [runTask, hc, hb, hs, polledTask, clonedTask]
+/-! ## One loop body of `tick` -/
 
-theorem runTask_ready (t : TaskSt) (hc : t.word.notCancelled = true) (hb : t.word.completed = false)
-    (o : Outcome) (r : List Outcome) (hs : t.script = o :: r) (ho : o = .ready ∨ o = .panic) :
-    runTask t = (finishedTask t o, .finished,
-                 if t.word.hasWaker && t.word.notSettingWaker then t.slot else none) := by
-  rcases ho with ho | ho <;> subst ho <;> simp [runTask, hc, hb, hs, finishedTask]
-
-set_option hygiene false in
-/-- split task `t` and invariant `h` into explicit fields, decide the flags, finish by `simp`/`omega` -/
-macro "task_tac" "[" defs:Lean.Parser.Tactic.simpLemma,* "]" : tactic => `(tactic| (
+theorem dropRef_polls (t : TaskSt) : (dropRef t).polls = t.polls := by
   obtain ⟨⟨s, sg, nsw, hw, c, hr, nc, cnt⟩, st, slot, script, sh, hd, wk, polls, fd, rt, rd, ss, sd, de, uaf, bp⟩ := t
-  obtain ⟨h1, h2, h3, h4a, h4b, h4c, h4d, h5a, h5b, h5c, h5d, h5e, h5f, h6, h7, h8, h9, h10, h11, h12, h13⟩ := h
-  cases nsw <;> cases c <;> cases hr <;> cases hw <;> cases hd <;> simp [holders] at * <;>
-    subst_vars <;> simp [isRes] at * <;> constructor <;>
-    simp [$defs,*, dropRef, taskDropByExecutor, holders, isRes] <;> (try split) <;> (try simp_all) <;> (try omega)))
+  cases hr <;> cases hw <;> simp [dropRef] <;> split <;> split <;> rfl
 
-theorem polledTask_inv (t : TaskSt) (h : TInv true t) : TInv true (polledTask t) := by
-  task_tac [polledTask]
+theorem taskDropByExecutor_polls (t : TaskSt) : (taskDropByExecutor t).polls = t.polls := by
+  obtain ⟨⟨s, sg, nsw, hw, c, hr, nc, cnt⟩, st, slot, script, sh, hd, wk, polls, fd, rt, rd, ss, sd, de, uaf, bp⟩ := t
+  cases c <;> cases hw <;> cases nsw <;> simp [taskDropByExecutor]
 
-theorem clonedTask_inv (t : TaskSt) (h : TInv true t) : TInv true (clonedTask t) := by
-  task_tac [polledTask, clonedTask]
+/-- the five things `Task::run` can do to a queued task -/
+theorem runTask_cases (t : TaskSt) (hb : t.word.completed = false) :
+    (t.word.notCancelled = false ∧ runTask t = (droppedTask t, .dropped, none)) ∨
+    (t.word.notCancelled = true ∧
+      (runTask t = (polledTask t, .pending, none) ∨ runTask t = (polledTask t, .wokeSelf, none) ∨
+       runTask t = (clonedTask t, .pending, none) ∨
+       ∃ o, (o = .ready ∨ o = .panic) ∧ t.script.head? = some o ∧ runTask t = (finishedTask t o, .finished,
+          if t.word.hasWaker && t.word.notSettingWaker then t.slot else none))) := by
+  cases hc : t.word.notCancelled
+  · exact Or.inl ⟨rfl, runTask_cancelled t hc⟩
+  · refine Or.inr ⟨rfl, ?_⟩
+    rcases hs : t.script with _ | ⟨o, r⟩
+    · exact Or.inl (runTask_pending t hc hb (Or.inl hs))
+    · cases o
+      · exact Or.inl (runTask_pending t hc hb (Or.inr ⟨r, hs⟩))
+      · exact Or.inr (Or.inl (runTask_wakeSelf t hc hb r hs))
+      · exact Or.inr (Or.inr (Or.inl (runTask_clone t hc hb r hs)))
+      · exact Or.inr (Or.inr (Or.inr ⟨.ready, Or.inl rfl, by simp, runTask_ready t hc hb _ r hs (Or.inl rfl)⟩))
+      · exact Or.inr (Or.inr (Or.inr ⟨.panic, Or.inr rfl, by simp, runTask_ready t hc hb _ r hs (Or.inr rfl)⟩))
 
-theorem finishedTask_inv (t : TaskSt) (o : Outcome) (h : TInv true t) : TInv false (finishedTask t o) := by
-  by_cases ho : o = .panic
-  · subst ho
-    task_tac [finishedTask]
-  · have e : finishedTask t o = finishedTask t .ready := by simp [finishedTask, ho]
-    rw [e]
-    task_tac [finishedTask]
+theorem get?_setTask_self {e : Exec} {id : Nat} {t : TaskSt} (t' : TaskSt) (h : e.get? id = some t) :
+    (e.setTask id t').get? id = some t' := by
+  simp [Exec.get?, Exec.setTask, List.getElem?_set_self (get?_lt h)]
 
-theorem droppedTask_inv (t : TaskSt) (h : TInv true t) : TInv false (droppedTask t) := by
-  task_tac [droppedTask]
+theorem get?_setTask_ne (e : Exec) {id x : Nat} (t' : TaskSt) (h : x ≠ id) :
+    (e.setTask id t').get? x = e.get? x := by
+  simp [Exec.get?, Exec.setTask, List.getElem?_set_ne (Ne.symm h)]
 
-theorem clearedTask_inv (t : TaskSt) (h : TInv true t) : TInv false (dropRef (taskDropByExecutor t)) := by
-  task_tac [dropRef]
+/-- one loop body of `tick` on the head `id` of the hot list, in closed form -/
+theorem tickStep_head {e : Exec} (h : Inv e) {id : Nat} {rest : List Nat} (hh : e.hot = id :: rest) :
+    ∃ t, e.get? id = some t ∧ TInv true t ∧
+      tickStep e id =
+        ({ tasks := e.tasks.set id (runTask t).1,
+           hot := rest ++ (if (runTask t).2.1 = .wokeSelf then [id] else []),
+           cold := e.cold ++ (if (runTask t).2.1 = .pending then [id] else []),
+           woken := e.woken ++ (if (runTask t).2.1 = .finished then (runTask t).2.2.toList else []),
+           alive := e.alive }, decide ((runTask t).2.1 ≠ .dropped)) := by
+  obtain ⟨t, hg, ht⟩ := h.get_of_mem (id := id) (Or.inl (by simp [hh]))
+  refine ⟨t, hg, ht, ?_⟩
+  have hnd := h.q.hnd
+  rw [hh, List.nodup_cons] at hnd
+  have hnc : id ∉ e.cold := fun hc => h.q.disj id (by simp [hh]) hc
+  have hmc : makeCold e id = { e with hot := rest, cold := e.cold ++ [id] } := by
+    simp [makeCold, hh]
+  have hg' : (makeCold e id).get? id = some t := by rw [hmc]; exact hg
+  have hsh : (polledTask t).shared = true := by simp [polledTask, ht.inq_sh rfl]
+  simp only [tickStep, runOne, hg']
+  rcases runTask_cases t (ht.inq_c rfl) with ⟨_, hr⟩ | ⟨_, hr | hr | hr | ⟨o, _, _, hr⟩⟩ <;> rw [hr] <;>
+    simp [hmc, removeTask, Exec.setTask, hnd.1, hnc, List.erase_append_right, scheduleLocal, Exec.get?,
+      List.getElem?_set_self (get?_lt hg), hsh, makeHot]
 
-theorem spawnedTask_inv (sc : List Outcome) :
-    TInv true { word := TaskState.new 2, storage := .future, slot := none, script := sc,
-                shared := true, handle := true, wakers := 0, polls := 0, futDrops := 0,
-                resTaken := 0, resDrops := 0, slotSets := 0, slotDrops := 0, deallocs := 0, uaf := 0,
-                badPolls := 0 } := by
-  constructor <;> simp [holders, isRes]
+/-- what `Task::run` guarantees about a queued task, by kind of outcome -/
+theorem runTask_spec (t : TaskSt) (ht : TInv true t) :
+    (((runTask t).2.1 = .dropped ∨ (runTask t).2.1 = .finished) → TInv false (runTask t).1) ∧
+    (((runTask t).2.1 = .pending ∨ (runTask t).2.1 = .wokeSelf) →
+        TInv true (runTask t).1 ∧ (runTask t).1.word.notCancelled = true) ∧
+    ((runTask t).2.1 = .dropped ↔ t.word.notCancelled = false) ∧
+    ((runTask t).2.1 ≠ .dropped → (runTask t).1.polls = t.polls + 1) ∧
+    ((runTask t).2.1 = .dropped → (runTask t).1.polls = t.polls) := by
+  rcases runTask_cases t (ht.inq_c rfl) with ⟨hc, hr⟩ | ⟨hc, hr | hr | hr | ⟨o, _, _, hr⟩⟩ <;> rw [hr] <;> simp [hc]
+  · exact ⟨droppedTask_inv t ht, by simp [droppedTask, dropRef_polls, taskDropByExecutor_polls]⟩
+  · exact ⟨⟨polledTask_inv t ht, by simp [polledTask, hc]⟩, by simp [polledTask]⟩
+  · exact ⟨⟨polledTask_inv t ht, by simp [polledTask, hc]⟩, by simp [polledTask]⟩
+  · exact ⟨⟨clonedTask_inv t ht, by simp [clonedTask, polledTask, hc]⟩, by simp [clonedTask, polledTask]⟩
+  · exact ⟨finishedTask_inv t o ht, by simp [finishedTask, dropRef_polls, taskDropByExecutor_polls]⟩
 
-/-! ## handle and waker steps -/
-
-theorem pollTask_inv (q : Bool) (t : TaskSt) (w : Nat) (h : TInv q t) (hh : t.handle = true) :
-    TInv q (pollTask t w).1 := by
-  cases q <;> cases hn : t.word.notCancelled <;> task_tac [pollTask]
-
-theorem detachedTask_inv (q : Bool) (t : TaskSt) (h : TInv q t) (hh : t.handle = true) :
-    TInv q (dropRef { t with handle := false }) := by
-  cases q <;> task_tac [dropRef]
-
-theorem handleDropTask_inv (q : Bool) (t : TaskSt) (h : TInv q t) (hh : t.handle = true) :
-    TInv q (dropRef { cancelWord t true with handle := false }) := by
-  cases q <;> task_tac [cancelWord]
-
-theorem cancelWord_inv (q : Bool) (t : TaskSt) (h : TInv q t) :
-    TInv q (cancelWord t false) := by
-  have e : cancelWord t false = { t with word := { t.word with notCancelled := false } } := by
-    simp [cancelWord]
-  rw [e]
-  cases q <;> task_tac [cancelWord]
-
-theorem wakerDropTask_inv (q : Bool) (t : TaskSt) (h : TInv q t) (hh : t.wakers ≠ 0) :
-    TInv q (dropRef { t with wakers := t.wakers - 1 }) := by
-  cases q <;> task_tac [dropRef]
+theorem tickStep_inv {e : Exec} (h : Inv e) {id : Nat} {rest : List Nat} (hh : e.hot = id :: rest) :
+    Inv (tickStep e id).1 := by
+  obtain ⟨t, hg, ht, heq⟩ := tickStep_head h hh
+  obtain ⟨s1, s2, s3, s4, s5⟩ := runTask_spec t ht
+  have hnd := h.q.hnd
+  rw [hh, List.nodup_cons] at hnd
+  have hnc : id ∉ e.cold := fun hc => h.q.disj id (by simp [hh]) hc
+  rw [heq]
+  cases hk : (runTask t).2.1 <;> rw [hk] at s1 s2 <;> simp only [hk]
+  · exact h.update hg (QStep.tick h.q hh false false (by simp)) false (by simp [hnd.1, hnc]) (s1 (Or.inl rfl))
+      (by simp [hnc]) _ rfl (by simp) (by simp) rfl
+  · exact h.update hg (QStep.tick h.q hh false true (by simp)) true (by simp) (s2 (Or.inl rfl)).1
+      (by simp [(s2 (Or.inl rfl)).2]) _ rfl (by simp) (by simp) rfl
+  · exact h.update hg (QStep.tick h.q hh true false (by simp)) true (by simp) (s2 (Or.inr rfl)).1
+      (by simp [(s2 (Or.inr rfl)).2]) _ rfl (by simp) (by simp) rfl
+  · exact h.update hg (QStep.tick h.q hh false false (by simp)) false (by simp [hnd.1, hnc]) (s1 (Or.inr rfl))
+      (by simp [hnc]) _ rfl (by simp) (by simp) rfl
 
 end Compio.Executor
